@@ -124,6 +124,9 @@ structure Ext where
   i2f : Int64 → UInt64
   /-- `i64 as f32` -/
   i2f32 : Int64 → UInt32
+  /-- the `f64` nearest to an integer literal that fits neither `i64` nor `u64` (what `serde_json`
+  hands over for such a literal) -/
+  big2f : Int → UInt64
 
 /-! ## Text of map keys: `impl Display for ValueKey` -/
 
@@ -432,6 +435,100 @@ def jsonLayerE : List (SVal × SVal) → List (SVal × SVal)
   | [] => []
   | (k, v) :: es => (k, jsonLayer v) :: jsonLayerE es
 end
+
+/-! ### Nesting depth and the readers' recursion limits -/
+
+mutual
+/-- number of container levels (a scalar has depth 0) -/
+def depth : Val → Nat
+  | .list xs => depthL xs + 1
+  | .tuple xs => depthL xs + 1
+  | .map es => depthE es + 1
+  | _ => 0
+def depthL : List Val → Nat
+  | [] => 0
+  | x :: xs => max (depth x) (depthL xs)
+def depthE : List (Val × Val) → Nat
+  | [] => 0
+  | (_, v) :: es => max (depth v) (depthE es)
+end
+
+/-- `serde_json`'s reader gives up beyond 127 container levels ("recursion limit exceeded"),
+`serde_yaml_ng`'s beyond 128, `toml`'s beyond 81 (the top-level table included). The writers have no
+limit, so a deeper value serializes but cannot be read back (finding F-C20-5). Measured constants of
+the pinned crates; exercised at the boundary by (K) on every run. -/
+def jsonDepthLimit : Nat := 127
+def yamlDepthLimit : Nat := 128
+def tomlDepthLimit : Nat := 81
+
+/-- what `serde_json` hands over for an integer literal: `i64` if it fits, else `u64` if it fits,
+else the nearest `f64` (so only the literals in `(i64::MAX, u64::MAX]` reach `visit_u64` and are
+rejected by `KValueVisitor`; larger or more negative ones arrive as floats — finding F-C20-6) -/
+def jsonInt (X : Ext) (n : Int) : SVal :=
+  if inI64 n then .i64 (Int64.ofInt n)
+  else if 0 ≤ n ∧ n ≤ 18446744073709551615 then .u64 n.toNat
+  else .f64 (X.big2f n)
+
+def tomlDatetimeKey : List Nat :=
+  [36, 95, 95, 116, 111, 109, 108, 95, 112, 114, 105, 118, 97, 116, 101, 95, 100, 97, 116, 101, 116, 105, 109, 101]
+
+/-- what `toml`'s reader hands over for a date/time literal: a one-entry map with the crate's private
+key `$__toml_private_datetime` and the literal's text — the value loses its type (a note, not a
+round-trip clause: the property speaks about value → text → value) -/
+def tomlDatetime (text : List Nat) : SVal := .map [(.str tomlDatetimeKey, .str text)]
+
+/-! ### Aliasing: values are graphs, `Val` is their unfolding
+
+A Koto list or map is a shared, mutable container; a value can contain the same container twice
+(a DAG) or contain itself (a cycle). `Val` is the tree unfolding, which exists exactly for the
+acyclic values. `serG` mirrors `serialize.rs` on the graph itself: the containers that are being
+serialized are tracked (`PARENT_CONTAINERS`, commit 31a9fd6) and meeting one of them again is an
+error, so serialization is partial on cyclic values and total (= `ser` of the unfolding) on the
+others. Fuel bounds the recursion for Lean; `nodes + 1` is always enough because the guard keeps the
+nodes on the path distinct. -/
+
+/-- an element of a container node: a scalar leaf or a reference to a node -/
+inductive GElem where
+  | leaf (n : Int64)
+  | ref (i : Nat)
+  deriving Repr, Inhabited, DecidableEq
+
+/-- a container node: list (`isMap = false`) or map (entry `j` has the key `k<j>`) -/
+structure GNode where
+  isMap : Bool
+  elems : List GElem
+  deriving Repr, Inhabited
+
+abbrev Graph := List GNode
+
+/-- keys of graph maps: `k0`, `k1`, … -/
+def gKey (j : Nat) : List Nat := 107 :: natDec j
+
+def zipKeys (j : Nat) : List SVal → List (SVal × SVal)
+  | [] => []
+  | s :: ss => (.str (gKey j), s) :: zipKeys (j + 1) ss
+
+def allSome {α : Type} : List (Option α) → Option (List α)
+  | [] => some []
+  | none :: _ => none
+  | some a :: r => (allSome r).map (a :: ·)
+
+def serG (g : Graph) : Nat → List Nat → Nat → Option SVal
+  | 0, _, _ => none
+  | fuel + 1, path, i =>
+    if i ∈ path then none   -- "a container that contains itself"
+    else
+      match g[i]? with
+      | none => none
+      | some node =>
+        let elems := node.elems.map (fun e =>
+          match e with
+          | .leaf n => some (SVal.i64 n)
+          | .ref j => serG g fuel (i :: path) j)
+        (allSome elems).map (fun ss => if node.isMap then .map (zipKeys 0 ss) else .seq ss)
+
+/-- successor relation of the graph -/
+def gSucc (g : Graph) (i j : Nat) : Prop := ∃ node, g[i]? = some node ∧ GElem.ref j ∈ node.elems
 
 mutual
 /-- every integer the format hands over fits `i64` -/
